@@ -5,7 +5,7 @@ import z3
 
 from . import smt
 from .smt import IS, VS, Val, I, B, ISq, VSq
-from .values import (VInt, VBool, VSeq, VNone, VTuple, VList, VRef, VAny, VConst, VRecord, Unsupported, fresh,
+from .values import (VInt, VBool, VSeq, VNone, VTuple, VList, VRef, VAny, VConst, VRecord, VOpt, Unsupported, fresh,
                      parse_type, box, unbox, wt, wt_seq, sym_value, is_bytes_fact, mk_vsq)
 from .engine import Engine, State, Frame, Signal, exc_isa, lit_seq, ite_val, _ids
 from .calls import is_logger_call
@@ -151,6 +151,13 @@ class Verifier(Engine):
 
     def run_function(self, fr, st):
         c = fr.contract
+        for lname, lty in c.logicals.items():
+            v, facts = sym_value(lname, parse_type(lty))
+            st.env[lname] = v
+            st.assume(*facts)
+        ac = fresh("aes_calls", I)
+        st.env["aes_calls"] = VInt(ac)
+        st.assume(ac >= 0)
         for r in c.requires:
             st.assume(self.truth(st, self.ev1(r, st)))
         fr.canaries.append((f"{c.key}/canary:pre[{fr.case_label}]", list(st.pc)))
@@ -190,16 +197,25 @@ class Verifier(Engine):
         for i, en in enumerate(c.ensures):
             t = self.truth(s, self.ev1(en, s))
             self.oblige(s, t, "post", i, info={"case": fr.case_label}, assume_after=False)
+        if not mentions_aes(c) and "aes_calls" in s.env and "aes_calls" in fr.init_state.env:
+            t = s.env["aes_calls"].t == fr.init_state.env["aes_calls"].t
+            if not z3.is_true(z3.simplify(t)):
+                self.oblige(s, t, "ghost-frame:aes_calls", "", info={"case": fr.case_label}, assume_after=False)
 
     def check_exc_exit(self, fr, s, exc, node, why):
         c = fr.contract
         allowed = []
-        for (e, when) in c.raises:
+        for (e, when, ens) in c.raises:
             if exc_isa(exc, e):
-                if when is None:
-                    allowed.append(z3.BoolVal(True))
-                else:
-                    allowed.append(self.truth(fr.init_state, self.ev1(when, fr.init_state)))
+                w = z3.BoolVal(True) if when is None else self.truth(fr.init_state, self.ev1(when, fr.init_state))
+                if ens is not None:
+                    # exceptional postcondition, evaluated in the state of the raising path
+                    s2 = s.fork()
+                    for name, _ty in c.params:
+                        if name in fr.init_state.env:
+                            s2.env[name] = fr.init_state.env[name]
+                    w = z3.And(w, self.truth(s2, self.ev1(ens, s2)))
+                allowed.append(w)
         goal = z3.Or(*allowed) if allowed else z3.BoolVal(False)
         line = getattr(node, "lineno", 0) - fr.fdef.lineno if fr.fdef is not None else 0
         self.oblige(s, goal, f"escape-{exc}", f"{why}@L{line}".replace(" ", "-"),
@@ -482,9 +498,29 @@ class Verifier(Engine):
             s1.assume(ct)
             s2 = s
             s2.assume(z3.Not(ct))
+            self.narrow(stmt.test, s1, True)
+            self.narrow(stmt.test, s2, False)
             outs += self.ex_block(stmt.body, s1)
             outs += self.ex_block(stmt.orelse, s2)
         return outs
+
+    def narrow(self, test, st, truthy):
+        """`if x:` / `if not x:` / `if x is None:` on an Optional local: unwrap it in the branch where it is not None."""
+        from .values import VOpt
+        neg = False
+        while isinstance(test, ast.UnaryOp) and isinstance(test.op, ast.Not):
+            test, neg = test.operand, not neg
+        name = None
+        if isinstance(test, ast.Name):
+            name, nonnull_when = test.id, True
+        elif isinstance(test, ast.Compare) and len(test.ops) == 1 and isinstance(test.left, ast.Name) \
+                and isinstance(test.comparators[0], ast.Constant) and test.comparators[0].value is None:
+            name = test.left.id
+            nonnull_when = isinstance(test.ops[0], ast.IsNot)
+        if name is None or not isinstance(st.env.get(name), VOpt):
+            return
+        if (truthy != neg) == nonnull_when:
+            st.env[name] = st.env[name].value
 
     def ex_Return(self, stmt, st):
         if stmt.value is None:
@@ -753,9 +789,11 @@ class Verifier(Engine):
                 if not z3.is_false(ct):
                     b = s.fork()
                     b.assume(ct)
+                    self.narrow(stmt.test, b, True)
                     body_states.append(b)
                 if not z3.is_true(ct):
                     s.assume(z3.Not(ct))
+                    self.narrow(stmt.test, s, False)
                     exits.append((s, "normal"))
         for b in body_states:
             v0 = None
@@ -814,11 +852,20 @@ class Verifier(Engine):
             return VAny(fresh(name, Val))
         if isinstance(cur, VTuple):
             return VTuple([self.fresh_like(st, f"{name}_{i}", x) for i, x in enumerate(cur.items)])
+        if isinstance(cur, VOpt):
+            return VOpt(fresh(name + "_isnone", B), self.fresh_like(st, name, cur.value))
         if isinstance(cur, VNone):
             raise Unsupported(f"variable {name} is None before the loop and assigned in it: declare its type in loop(locals=...)")
         if isinstance(cur, VRecord):
             return VRecord(cur.cls, {k: self.fresh_like(st, f"{name}_{k}", x) for k, x in cur.fields.items()})
         raise Unsupported(f"cannot havoc {name} = {cur!r}")
+
+
+def mentions_aes(c):
+    for e in list(c.ensures) + [x for (_a, _b, x) in c.raises if x is not None]:
+        if any(isinstance(n, ast.Name) and n.id == "aes_calls" for n in ast.walk(e)):
+            return True
+    return False
 
 
 def exc_name(node):
